@@ -1098,15 +1098,23 @@ def r03_1(cx):
             okb = bool(lg) and not reachable_without(b, [cb], lg)
             cx.report('R03.1', b, 'bound:%s' % tag, okb, 'list index < match_len(sid) is checked before the entry is read' if okb else 'list entry read without an index < match_len(sid) check', line_of(b, cb))
     cx.floor('R03.1', 'overlapping publications', n, 3)
-    # exhaustion in the resume branch: at += 1, next_match_index = None, mat = None together
-    plus = [db for db, di, val in d.cursor_defs() if db not in d.loop and d.plus1(val)]
+    # leaving a state's match list (exhausted, or cut short by the anchored filter) while resuming: at += 1, next_match_index = None,
+    # mat = None on EVERY path that goes on to the walk -- a path statement on the summaries of the part before the loop
+    from acverif.sym import Sym, canon, cstr, teval, by_cstr
     okx = False
-    if len(plus) == 1:
-        blk = plus[0]
-        r = b.reach(blk, cut_blocks=[d.header]) | {blk}
-        clears_nmi = any(tt == NMI and is_agg(val, r'Option$', 'None') and sb in r for sb, ssi, tt, val, s in b.field_stores())
-        clears_mat = any(sb in r for sb, ssi in none)
-        okx = clears_nmi and clears_mat
+    try:
+        arr = Sym(cx.facts, b, start=0, stop={d.header}).rows()
+        res = [r for r in arr if r.end == ('stop', d.header) and r.cond(lambda c: cstr(canon(c)) == 'discr(%s.id)' % cstr(d.state)) == 1
+               and r.cond(lambda c: cstr(canon(c)) == 'discr(%s.next_match_index)' % cstr(d.state)) == 1]
+        okx = bool(res)
+        for r in res:
+            st = {cstr(canon(p0)): canon(v0) for p0, v0 in r.stores()}
+            at_v = st.get('%s.at' % cstr(d.state))
+            good = at_v is not None and teval(at_v, by_cstr({'%s.at' % cstr(d.state): 7})) == 8
+            good = good and is_agg(st.get('%s.next_match_index' % cstr(d.state)), r'Option$', 'None') and is_agg(st.get('%s.mat' % cstr(d.state)), r'Option$', 'None')
+            okx = okx and good
+    except Exception:
+        okx = False
     cx.report('R03.1', b, 'exhaustion', okx, 'when a state\'s list is exhausted: at += 1, next_match_index = None, mat = None, then the walk continues' if okx else 'list exhaustion does not advance/clear the stepping state as specified')
     # state.id stores: Some(sid) at loop exit and on special states
     ids3 = [(sb, ssi, val) for sb, ssi, tt, val, s in b.field_stores() if tt == ('f', st, 'id')]
